@@ -96,12 +96,13 @@ pub fn entries(tier: Tier) -> Vec<Entry> {
     unary_family(&mut e);
     binary_family(&mut e);
     arithmetic_chains(&mut e);
-    layout_ops(&mut e);
+    layout_ops(&mut e, tier);
     index_ops(&mut e);
     reduce_ops(&mut e);
     unary_with_extras(&mut e);
     nn_ops(&mut e);
-    let _ = (tier, entry_vac("", |_, _| {}).may_be_vacuous);
+    sequence_ops(&mut e);
+    let _ = tier;
     e
 }
 
@@ -531,6 +532,28 @@ fn arithmetic_chains(e: &mut Vec<Entry>) {
             }
         }
     }));
+    // Shape -> Slice[i:i+1] -> Squeeze -> arithmetic -> Unsqueeze -> Concat with a constant -> Expand/ConstantOfShape
+    e.push(entry("chain Shape>Slice>Squeeze>step>Unsqueeze>Concat>ConstantOfShape", |_, sink| {
+        for a in SIZES {
+            for b in [1usize, 2] {
+                for i in [0i64, 1] {
+                    for st in steps(&[-1, 0, 1, 2]) {
+                        let mut nodes = vec![
+                            n("Shape", &["x"], &["s"]),
+                            n("Slice", &["s", "b0", "b1"], &["sl"]),
+                            n("Squeeze", &["sl", "ax"], &["d"]),
+                        ];
+                        let mut inputs = vec![TIn::f32("x", &[a, b]), vin("b0", &[i], true), vin("b1", &[i + 1], true), vin("ax", &[0], true), vin("cv", &[2], true)];
+                        push_step(&st, "d", "v", 0, &mut nodes, &mut inputs);
+                        nodes.push(n("Unsqueeze", &["v", "ax"], &["u"]));
+                        nodes.push(n("Concat", &["cv", "u"], &["t"]).attr("axis", Attr::Int(0)));
+                        nodes.push(n("ConstantOfShape", &["t"], &["y"]));
+                        sink(Case::new("chain Shape>Slice>Squeeze>step>Unsqueeze>Concat>ConstantOfShape", "dim arithmetic through Slice/Squeeze", nodes, inputs));
+                    }
+                }
+            }
+        }
+    }));
     // Cast in the chain (int -> float -> arithmetic -> int), as exported by PyTorch for Resize sizes.
     e.push(entry("chain Shape>Cast>arith>Cast", |_, sink| {
         for a in SIZES {
@@ -638,7 +661,7 @@ fn arithmetic_chains(e: &mut Vec<Entry>) {
 // ---------------------------------------------------------------------------
 // Layout operators
 
-fn layout_ops(e: &mut Vec<Entry>) {
+fn layout_ops(e: &mut Vec<Entry>, tier_outer: Tier) {
     e.push(entry("Shape", |tier, sink| {
         let bounds: Vec<Option<i64>> = std::iter::once(None).chain((-3..=3).map(Some)).collect();
         for s in data_shapes(tier) {
@@ -760,7 +783,9 @@ fn layout_ops(e: &mut Vec<Entry>) {
             }
         }
     }));
-    e.push(entry("Reshape", |tier, sink| {
+    for shard_rank in 0..=tier_outer.pick(3usize, 4usize) {
+    for shard_allowzero in [false, true] {
+    e.push(entry(&format!("Reshape (data rank {shard_rank}, allowzero={})", shard_allowzero as u8), move |tier, sink| {
         let alphabet: [i64; 8] = [-1, 0, 1, 2, 3, 4, 6, 9];
         let mut targets: Vec<Vec<i64>> = vec![vec![]];
         let mut cur: Vec<Vec<i64>> = vec![vec![]];
@@ -776,9 +801,9 @@ fn layout_ops(e: &mut Vec<Entry>) {
             targets.extend(next.iter().cloned());
             cur = next;
         }
-        for s in data_shapes(tier) {
+        for s in data_shapes(tier).into_iter().filter(|s| s.len() == shard_rank) {
             let numel: usize = s.iter().product();
-            for allowzero in [false, true] {
+            for allowzero in [shard_allowzero] {
                 for t in &targets {
                     // keep only targets that are valid by the ONNX rules
                     if t.iter().filter(|v| **v == -1).count() > 1 {
@@ -821,10 +846,15 @@ fn layout_ops(e: &mut Vec<Entry>) {
             }
         }
         // value-preserving reshapes of constant scalars / vectors
+        if shard_rank > 0 || shard_allowzero {
+            return;
+        }
         for (x, sh) in [(TIn::scalar_i64("x", 4), vec![]), (TIn::scalar_i64("x", 4), vec![1i64]), (TIn::vec_i64("x", &[4, 5]), vec![-1]), (TIn::vec_i64("x", &[4, 5]), vec![2]), (TIn::vec_i64("x", &[4]), vec![])] {
             sink(Case::new("Reshape", "constant scalar/vector data", vec![n("Reshape", &["x", "sh"], &["y"])], vec![x.as_init(), vin("sh", &sh, true)]));
         }
     }));
+    }
+    }
     e.push(entry("DepthToSpace", |_, sink| {
         for nb in [0usize, 1, 2] {
             for c in [4usize, 8, 9] {
@@ -945,8 +975,8 @@ fn layout_ops(e: &mut Vec<Entry>) {
 fn slice_feature(d: usize, st: i64, en: i64, step: i64) -> &'static str {
     let d = d as i64;
     if step < 0 {
-        if st < -d {
-            "negative step, start below -dim"
+        if st < -d || en < -d {
+            "negative step, start or end below -dim"
         } else if en >= i32::MAX as i64 {
             "negative step, end is the INT_MAX sentinel"
         } else {
@@ -1331,14 +1361,15 @@ fn index_ops(e: &mut Vec<Entry>) {
 
 fn reduce_ops(e: &mut Vec<Entry>) {
     for op in ["ReduceSum", "ReduceMean", "ReduceMax", "ReduceMin", "ReduceProd", "ReduceL1", "ReduceL2", "ReduceLogSum", "ReduceLogSumExp", "ReduceSumSquare"] {
-        let name = format!("{op} axes input (opset 18)");
+        for shard_keep in [1i64, 0] {
+        let name = format!("{op} axes input (opset 18) keepdims={shard_keep}");
         e.push(entry(&name.clone(), move |tier, sink| {
             // The ten reduce operators share one inference rule; the large
             // shape range is spent on ReduceSum and ReduceMax.
             let shapes = if op == "ReduceSum" || op == "ReduceMax" { data_shapes(tier) } else { all_shapes(2, &[0, 1, 2]) };
             for s in shapes {
                 let r = s.len();
-                for keep in [1i64, 0] {
+                for keep in [shard_keep] {
                     for noop in [0i64, 1] {
                         // axes omitted
                         sink(Case::new(
@@ -1371,6 +1402,7 @@ fn reduce_ops(e: &mut Vec<Entry>) {
                 }
             }
         }));
+        }
     }
     e.push(entry("ReduceSum/ReduceMax axes attribute (opset 11)", |tier, sink| {
         for op in ["ReduceMax", "ReduceMean"] {
@@ -2036,6 +2068,315 @@ fn nn_ops(e: &mut Vec<Entry>) {
                     vec![n("NonMaxSuppression", &["b", "s", "mx", "iou", "st"], &["y"])],
                     vec![TIn::floats("b", &[1, nbox, 4], &boxes), TIn::floats("s", &[1, ncls, nbox], &scores), TIn::scalar_i64("mx", 2).as_init(), TIn::floats("iou", &[], &[0.5]).as_init(), TIn::floats("st", &[], &[0.0]).as_init()],
                 ));
+            }
+        }
+    }));
+}
+
+// ---------------------------------------------------------------------------
+// FFT, RNN, attention, block-quantized matmul, rotary embedding
+
+fn sequence_ops(e: &mut Vec<Entry>) {
+    // DFT/STFT need rten's `fft` cargo feature, which the harness workspace does
+    // not enable: the models then fail to load and the entries claim nothing.
+    e.push(entry_vac("DFT", |_, sink| {
+        for batch in [1usize, 2] {
+            for len in [1usize, 2, 3, 4, 5] {
+                for comps in [1usize, 2] {
+                    for (inverse, onesided) in [(0i64, 0i64), (0, 1), (1, 0), (1, 1)] {
+                        for dft_len in [None, Some(1i64), Some(3), Some(4), Some(6)] {
+                            for (init, vm) in value_modes() {
+                                if dft_len.is_none() && !init {
+                                    continue;
+                                }
+                                let mut names = vec!["x"];
+                                let mut ins = vec![TIn::f32("x", &[batch, len, comps])];
+                                if let Some(l) = dft_len {
+                                    let mut t = TIn::scalar_i64("n", l);
+                                    t.init = init;
+                                    ins.push(t);
+                                    names.push("n");
+                                }
+                                sink(Case::new(
+                                    "DFT",
+                                    &format!("{vm}; inverse={inverse} onesided={onesided}"),
+                                    vec![n("DFT", &names, &["y"]).attr("inverse", Attr::Int(inverse)).attr("onesided", Attr::Int(onesided))],
+                                    ins,
+                                )
+                                .opset(20));
+                            }
+                        }
+                    }
+                }
+            }
+        }
+        // axis as an input (opset 20) and as an attribute (opset 17), rank-4 input
+        for axis in [-3i64, -2, 0, 1, 2] {
+            sink(Case::new(
+                "DFT",
+                "axis input",
+                vec![n("DFT", &["x", "", "ax"], &["y"])],
+                vec![TIn::f32("x", &[2, 3, 4, 1]), TIn::scalar_i64("ax", axis).as_init()],
+            )
+            .opset(20));
+            sink(Case::new("DFT", "axis attribute (opset 17)", vec![n("DFT", &["x"], &["y"]).attr("axis", Attr::Int(axis))], vec![TIn::f32("x", &[2, 3, 4, 1])]).opset(17));
+        }
+        sink(Case::new("DFT", "default axis (opset 17)", vec![n("DFT", &["x"], &["y"])], vec![TIn::f32("x", &[2, 3, 4, 1])]).opset(17));
+    }));
+    e.push(entry_vac("STFT", |_, sink| {
+        for batch in [1usize, 2] {
+            for len in [4usize, 5, 8] {
+                for step in [1i64, 2, 3] {
+                    for nfft in [2usize, 3, 4] {
+                        for onesided in [1i64, 0] {
+                            for use_window in [true, false] {
+                                for rank3 in [true, false] {
+                                    for (init, vm) in value_modes() {
+                                        let sig = if rank3 { vec![batch, len, 1] } else { vec![batch, len] };
+                                        let mut st = TIn::scalar_i64("step", step);
+                                        st.init = init;
+                                        let mut ins = vec![TIn::f32("x", &sig), st];
+                                        let names: Vec<&str> = if use_window {
+                                            ins.push(TIn::f32("w", &[nfft]).positive().as_init());
+                                            vec!["x", "step", "w"]
+                                        } else {
+                                            let mut fl = TIn::scalar_i64("fl", nfft as i64);
+                                            fl.init = init;
+                                            ins.push(fl);
+                                            vec!["x", "step", "", "fl"]
+                                        };
+                                        sink(Case::new("STFT", &format!("{vm}; onesided={onesided}"), vec![n("STFT", &names, &["y"]).attr("onesided", Attr::Int(onesided))], ins).opset(17));
+                                    }
+                                }
+                            }
+                        }
+                    }
+                }
+            }
+        }
+    }));
+    for (op, gates) in [("GRU", 3usize), ("LSTM", 4usize)] {
+        e.push(entry(op, move |_, sink| {
+            for seq in [0usize, 1, 2] {
+                for batch in [1usize, 2] {
+                    for input in [1usize, 3] {
+                        for hidden in [1usize, 2] {
+                            for (dir, nd) in [("forward", 1usize), ("reverse", 1), ("bidirectional", 2)] {
+                                for bias in [false, true] {
+                                    let mut ins = vec![
+                                        TIn::f32("x", &[seq, batch, input]),
+                                        TIn::f32("w", &[nd, gates * hidden, input]).as_init(),
+                                        TIn::f32("r", &[nd, gates * hidden, hidden]).as_init(),
+                                    ];
+                                    let mut names = vec!["x", "w", "r"];
+                                    if bias {
+                                        ins.push(TIn::f32("b", &[nd, 2 * gates * hidden]).as_init());
+                                        names.push("b");
+                                    }
+                                    let outs: Vec<&str> = if op == "GRU" { vec!["y", "yh"] } else { vec!["y", "yh", "yc"] };
+                                    let mut node = n(op, &names, &outs).attr("hidden_size", Attr::Int(hidden as i64)).attr("direction", Attr::Str(dir.into()));
+                                    if op == "GRU" {
+                                        node = node.attr("linear_before_reset", Attr::Int(1));
+                                    }
+                                    sink(Case::new(op, "constant weights", vec![node], ins));
+                                }
+                            }
+                            // dynamic weights
+                            sink(Case::new(
+                                op,
+                                "dynamic weights",
+                                vec![if op == "GRU" {
+                                    n(op, &["x", "w", "r"], &["y", "yh"]).attr("hidden_size", Attr::Int(hidden as i64)).attr("linear_before_reset", Attr::Int(1))
+                                } else {
+                                    n(op, &["x", "w", "r"], &["y", "yh"]).attr("hidden_size", Attr::Int(hidden as i64))
+                                }],
+                                vec![TIn::f32("x", &[seq, batch, input]), TIn::f32("w", &[1, gates * hidden, input]), TIn::f32("r", &[1, gates * hidden, hidden])],
+                            ));
+                        }
+                    }
+                }
+            }
+        }));
+    }
+    e.push(entry("Attention (ai.onnx)", |_, sink| {
+        for batch in [1usize, 2] {
+            for qs in [1usize, 2] {
+                for kvs in [1usize, 3] {
+                    for (qh, kvh) in [(2usize, 2usize), (2, 1), (4, 2)] {
+                        for (hs, vhs) in [(2usize, 2usize), (2, 3)] {
+                            for past in [None, Some(2usize)] {
+                                // 4-D inputs
+                                let mut ins = vec![TIn::f32("q", &[batch, qh, qs, hs]), TIn::f32("k", &[batch, kvh, kvs, hs]), TIn::f32("v", &[batch, kvh, kvs, vhs])];
+                                let mut names = vec!["q", "k", "v"];
+                                if let Some(p) = past {
+                                    ins.push(TIn::f32("pk", &[batch, kvh, p, hs]));
+                                    ins.push(TIn::f32("pv", &[batch, kvh, p, vhs]));
+                                    names.extend(["", "pk", "pv"]);
+                                }
+                                let outs: Vec<&str> = if past.is_some() { vec!["y", "prk", "prv"] } else { vec!["y"] };
+                                sink(Case::new("Attention (ai.onnx)", if past.is_some() { "4-D with past" } else { "4-D" }, vec![n("Attention", &names, &outs)], ins).opset(23));
+                                // 3-D inputs with head-count attributes
+                                let mut ins = vec![TIn::f32("q", &[batch, qs, qh * hs]), TIn::f32("k", &[batch, kvs, kvh * hs]), TIn::f32("v", &[batch, kvs, kvh * vhs])];
+                                let mut names = vec!["q", "k", "v"];
+                                if let Some(p) = past {
+                                    ins.push(TIn::f32("pk", &[batch, kvh, p, hs]));
+                                    ins.push(TIn::f32("pv", &[batch, kvh, p, vhs]));
+                                    names.extend(["", "pk", "pv"]);
+                                }
+                                let outs: Vec<&str> = if past.is_some() { vec!["y", "prk", "prv"] } else { vec!["y"] };
+                                sink(Case::new(
+                                    "Attention (ai.onnx)",
+                                    if past.is_some() { "3-D with past" } else { "3-D" },
+                                    vec![n("Attention", &names, &outs).attr("q_num_heads", Attr::Int(qh as i64)).attr("kv_num_heads", Attr::Int(kvh as i64))],
+                                    ins,
+                                )
+                                .opset(23));
+                            }
+                        }
+                    }
+                }
+            }
+        }
+    }));
+    e.push(entry("MultiHeadAttention (com.microsoft)", |_, sink| {
+        for batch in [1usize, 2] {
+            for qs in [1usize, 2] {
+                for kvs in [1usize, 3] {
+                    for heads in [1usize, 2] {
+                        for (hs, vhs) in [(2usize, 2usize), (2, 3)] {
+                            for past in [None, Some(2usize)] {
+                                let mut ins = vec![TIn::f32("q", &[batch, qs, heads * hs]), TIn::f32("k", &[batch, kvs, heads * hs]), TIn::f32("v", &[batch, kvs, heads * vhs])];
+                                let mut names = vec!["q", "k", "v"];
+                                if let Some(p) = past {
+                                    ins.push(TIn::f32("pk", &[batch, heads, p, hs]));
+                                    ins.push(TIn::f32("pv", &[batch, heads, p, vhs]));
+                                    names.extend(["", "", "", "pk", "pv"]);
+                                }
+                                for outs in [vec!["y"], vec!["y", "prk", "prv"]] {
+                                    sink(Case::new(
+                                        "MultiHeadAttention (com.microsoft)",
+                                        if past.is_some() { "separate Q/K/V with past" } else { "separate Q/K/V" },
+                                        vec![n("MultiHeadAttention", &names, &outs).domain("com.microsoft").attr("num_heads", Attr::Int(heads as i64))],
+                                        ins.clone(),
+                                    ));
+                                }
+                            }
+                            // packed QKV
+                            if hs == vhs {
+                                sink(Case::new(
+                                    "MultiHeadAttention (com.microsoft)",
+                                    "packed QKV",
+                                    vec![n("MultiHeadAttention", &["q"], &["y", "prk", "prv"]).domain("com.microsoft").attr("num_heads", Attr::Int(heads as i64))],
+                                    vec![TIn::f32("q", &[batch, qs, heads, 3, hs])],
+                                ));
+                            }
+                        }
+                    }
+                }
+            }
+        }
+    }));
+    e.push(entry("GroupQueryAttention (com.microsoft)", |_, sink| {
+        for batch in [1usize, 2] {
+            for seq in [1usize, 2] {
+                for (heads, kvh) in [(2usize, 2usize), (2, 1), (4, 2)] {
+                    for hs in [2usize, 4] {
+                        for past in [0usize, 2] {
+                            let total = (past + seq) as i64;
+                            let mut ins = vec![
+                                TIn::f32("q", &[batch, seq, heads * hs]),
+                                TIn::f32("k", &[batch, seq, kvh * hs]),
+                                TIn::f32("v", &[batch, seq, kvh * hs]),
+                                TIn::f32("pk", &[batch, kvh, past, hs]),
+                                TIn::f32("pv", &[batch, kvh, past, hs]),
+                                TIn::ints("sl", dtype::INT32, &[batch], &vec![total - 1; batch]),
+                                TIn::ints("tl", dtype::INT32, &[], &[total]),
+                            ];
+                            sink(Case::new(
+                                "GroupQueryAttention (com.microsoft)",
+                                "separate Q/K/V",
+                                vec![n("GroupQueryAttention", &["q", "k", "v", "pk", "pv", "sl", "tl"], &["y", "prk", "prv"]).domain("com.microsoft").attr("num_heads", Attr::Int(heads as i64)).attr("kv_num_heads", Attr::Int(kvh as i64))],
+                                ins.clone(),
+                            ));
+                            // packed QKV
+                            ins[0] = TIn::f32("q", &[batch, seq, (heads + 2 * kvh) * hs]);
+                            ins.remove(2);
+                            ins.remove(1);
+                            sink(Case::new(
+                                "GroupQueryAttention (com.microsoft)",
+                                "packed QKV",
+                                vec![n("GroupQueryAttention", &["q", "", "", "pk", "pv", "sl", "tl"], &["y", "prk", "prv"]).domain("com.microsoft").attr("num_heads", Attr::Int(heads as i64)).attr("kv_num_heads", Attr::Int(kvh as i64))],
+                                ins,
+                            ));
+                        }
+                    }
+                }
+            }
+        }
+    }));
+    e.push(entry("MatMulNBits (com.microsoft)", |_, sink| {
+        for batch in [vec![], vec![2usize]] {
+            for m in [1usize, 2] {
+                for nn in [1usize, 3] {
+                    for (block, kblocks) in [(16usize, 1usize), (32, 1), (16, 2)] {
+                        let k = block * kblocks;
+                        let mut a = batch.clone();
+                        a.extend([m, k]);
+                        let bcount = nn * kblocks * block / 2;
+                        sink(Case::new(
+                            "MatMulNBits (com.microsoft)",
+                            "4-bit blocks",
+                            vec![n("MatMulNBits", &["a", "b", "s"], &["y"])
+                                .domain("com.microsoft")
+                                .attr("K", Attr::Int(k as i64))
+                                .attr("N", Attr::Int(nn as i64))
+                                .attr("bits", Attr::Int(4))
+                                .attr("block_size", Attr::Int(block as i64))],
+                            vec![
+                                TIn::f32("a", &a),
+                                TIn::ints("b", dtype::UINT8, &[nn, kblocks, block / 2], &(0..bcount).map(|i| (i % 200) as i64).collect::<Vec<_>>()).as_init(),
+                                TIn::f32("s", &[nn, kblocks]).positive().as_init(),
+                            ],
+                        ));
+                    }
+                }
+            }
+        }
+    }));
+    e.push(entry("RotaryEmbedding", |_, sink| {
+        for batch in [1usize, 2] {
+            for seq in [1usize, 2] {
+                for heads in [1usize, 2] {
+                    for hs in [2usize, 4] {
+                        // 4-D input [batch, heads, seq, head]; caches [batch, seq, head/2]
+                        sink(Case::new(
+                            "RotaryEmbedding",
+                            "4-D input",
+                            vec![n("RotaryEmbedding", &["x", "c", "s"], &["y"])],
+                            vec![TIn::f32("x", &[batch, heads, seq, hs]), TIn::f32("c", &[batch, seq, hs / 2]), TIn::f32("s", &[batch, seq, hs / 2])],
+                        )
+                        .opset(23));
+                        sink(Case::new(
+                            "RotaryEmbedding",
+                            "3-D input",
+                            vec![n("RotaryEmbedding", &["x", "c", "s"], &["y"]).attr("num_heads", Attr::Int(heads as i64))],
+                            vec![TIn::f32("x", &[batch, seq, heads * hs]), TIn::f32("c", &[batch, seq, hs / 2]), TIn::f32("s", &[batch, seq, hs / 2])],
+                        )
+                        .opset(23));
+                        // com.microsoft variant: position ids + 2-D caches
+                        sink(Case::new(
+                            "RotaryEmbedding",
+                            "com.microsoft",
+                            vec![n("RotaryEmbedding", &["x", "p", "c", "s"], &["y"]).domain("com.microsoft").attr("num_heads", Attr::Int(heads as i64))],
+                            vec![
+                                TIn::f32("x", &[batch, seq, heads * hs]),
+                                TIn::ints("p", dtype::INT64, &[batch, seq], &vec![0; batch * seq]),
+                                TIn::f32("c", &[4, hs / 2]).as_init(),
+                                TIn::f32("s", &[4, hs / 2]).as_init(),
+                            ],
+                        ));
+                    }
+                }
             }
         }
     }));
